@@ -15,6 +15,7 @@
 static unsigned long long il_tv[MAXT];     /* temp values (bit patterns) */
 static char il_tc[MAXT];                   /* temp classes: 0 = undefined */
 static int il_class_errors, il_undef_uses, il_unmodelled, il_nblocks_run, il_redefs;
+static bool il_allow_redef;            /* set by harnesses that execute loops: a temporary is then assigned once per iteration */
 static struct block *il_exit_block;        /* block whose jump ended the run */
 static struct value *il_ret;               /* value returned by JUMP_RET, if any */
 static int il_endkind;                     /* JUMP_* kind that ended the run, or -1 when stopped at il_stop_at */
@@ -79,7 +80,7 @@ static unsigned long long il_val(struct value *v, int want) {
 }
 static void il_def(struct value *res, int class, unsigned long long x) {
 	if (res->kind != VALUE_TEMP || res->id == 0 || res->id >= MAXT) { il_unmodelled++; return; }
-	if (il_tc[res->id]) il_redefs++;
+	if (il_tc[res->id] && !il_allow_redef) il_redefs++;
 	il_tc[res->id] = class;
 	il_tv[res->id] = class == 'w' || class == 's' ? (unsigned)x : x;
 }
@@ -197,29 +198,36 @@ static bool il_is_stop(struct block *b) {
 	for (int i = 0; i < IL_NSTOP; i++) if (b && il_stops[i] == b) return true;
 	return false;
 }
-/* run from block b (entered from pred) until a terminator other than jmp/jnz, or a stop block */
+/* run from block b (entered from pred) until a terminator other than jmp/jnz, or a stop block.  Straight-line control flow (fall-through,
+ * jmp) is followed in a loop; only a conditional branch recurses (one path per outcome). */
+#ifndef IL_MAXBLOCKS
+#define IL_MAXBLOCKS 64
+#endif
 static void il_run(struct block *b, struct block *pred, int depth) {
 	struct inst **ip;
-	if (depth > IL_MAXDEPTH || !b) { il_unmodelled++; return; }
-	if (il_is_stop(b)) { il_exit_block = b; il_endkind = -1; return; }
-	il_nblocks_run++;
-	if (b->phi.res.kind) {
-		int i = pred == b->phi.blk[0] ? 0 : pred == b->phi.blk[1] ? 1 : -1;
-		if (i < 0) { il_class_errors++; }
-		else il_def(&b->phi.res, b->phi.class, il_val(b->phi.val[i], b->phi.class));
+	for (int nb = 0; nb < IL_MAXBLOCKS; nb++) {
+		if (depth > IL_MAXDEPTH || !b) { il_unmodelled++; return; }
+		if (il_is_stop(b)) { il_exit_block = b; il_endkind = -1; return; }
+		il_nblocks_run++;
+		if (b->phi.res.kind) {
+			int i = pred == b->phi.blk[0] ? 0 : pred == b->phi.blk[1] ? 1 : -1;
+			if (i < 0) { il_class_errors++; }
+			else il_def(&b->phi.res, b->phi.class, il_val(b->phi.val[i], b->phi.class));
+		}
+		/* index-based: the byte length of the instruction array is a concrete integer, while arrayforeach's pointer comparison is
+		 * not always simplified by symex (then every extra unwinding interprets a garbage instruction symbolically) */
+		{ size_t n_ = b->insts.len / sizeof(struct inst *); ip = b->insts.val; for (size_t i_ = 0; i_ < n_; i_++) il_inst(ip[i_]); }
+		switch (b->jump.kind) {
+		case JUMP_NONE: pred = b; b = b->next; continue;       /* fall through to the next block */
+		case JUMP_JMP: pred = b; b = b->jump.blk[0]; continue;
+		case JUMP_JNZ:
+			if ((unsigned)il_val(b->jump.arg, 'w')) il_run(b->jump.blk[0], b, depth + 1);
+			else il_run(b->jump.blk[1], b, depth + 1);
+			return;
+		case JUMP_RET: il_exit_block = b; il_endkind = JUMP_RET; il_ret = b->jump.arg; return;
+		case JUMP_HLT: il_exit_block = b; il_endkind = JUMP_HLT; return;
+		}
 	}
-	/* index-based: the byte length of the instruction array is a concrete integer, while arrayforeach's pointer comparison is
-	 * not always simplified by symex (then every extra unwinding interprets a garbage instruction symbolically) */
-	{ size_t n_ = b->insts.len / sizeof(struct inst *); ip = b->insts.val; for (size_t i_ = 0; i_ < n_; i_++) il_inst(ip[i_]); }
-	switch (b->jump.kind) {
-	case JUMP_NONE: il_run(b->next, b, depth + 1); return;      /* fall through to the next block */
-	case JUMP_JMP: il_run(b->jump.blk[0], b, depth + 1); return;
-	case JUMP_JNZ:
-		if ((unsigned)il_val(b->jump.arg, 'w')) il_run(b->jump.blk[0], b, depth + 1);
-		else il_run(b->jump.blk[1], b, depth + 1);
-		return;
-	case JUMP_RET: il_exit_block = b; il_endkind = JUMP_RET; il_ret = b->jump.arg; return;
-	case JUMP_HLT: il_exit_block = b; il_endkind = JUMP_HLT; return;
-	}
+	il_unmodelled++;      /* more straight-line blocks than the harness bound */
 }
 #define IL_WELLFORMED() (il_class_errors == 0 && il_undef_uses == 0 && il_unmodelled == 0 && il_redefs == 0)
